@@ -412,6 +412,10 @@ func (s *streamGRPC) RecvMsg(m interface{}) error {
 	}
 	b = b[:size]
 	if _, err := io.ReadFull(s.r, b); err != nil {
+		if err == io.EOF {
+			// The frame header announced size bytes: not a clean end of stream.
+			err = io.ErrUnexpectedEOF
+		}
 		return err
 	}
 
